@@ -503,4 +503,15 @@ theorem published_regions_are_marked_first_in_source :
 
 example : markedBeforePut false ["c.lookupRegion", "c.regions.put(reg)", "reg.MarkUnavailable"] = false := by decide
 
+/-- Regenerated from rpc.go: both waits of `getRegionAndClientForRPC` select on a channel value
+`ch` read *once* from `reg.AvailabilityChan()` (and on the caller's context and `c.done`).  This is
+what `Obs.chan0` / `Obs.chan1` model: one snapshot decides both whether to wait and on what.
+Reading the availability twice (is it unavailable? — then wait on whatever the channel is *now*)
+lets `MarkAvailable` slip in between: the second read returns nil and the waiter blocks for ever on
+a nil channel although its region is available. -/
+theorem waiter_waits_on_the_channel_it_checked_in_source :
+    (GV.Gen.Selects.selects.filter (fun s => s.fn == "client.getRegionAndClientForRPC")).map (·.cases)
+      = [["recv:c.done", "recv:ch", "recv:ctx.Done()"], ["recv:c.done", "recv:ch", "recv:ctx.Done()"]] := by
+  decide
+
 end GV.Avail
